@@ -1316,7 +1316,7 @@ func c25(c *rig.Ctx) {
 	defer box.close()
 	st := &c25stats{}
 	kinds := map[string]int{}
-	n := c.Pick(36, 1200)
+	n := c.Pick(36, 900)
 	for i := 0; i < n; i++ {
 		c25program(c, box, i, st, kinds)
 		if c.Violations() > 25 {
